@@ -27,7 +27,17 @@ for p in sorted(by):
         names.append(n)
     k = sum(1 for v in rows if v["status"] == "KILLED")
     lines.append(f"| {p} | {k} | {len(rows) - k} | {', '.join(names)} |")
-lines += ["", f"Totals: {tot.get('KILLED', 0)} killed, {tot.get('SURVIVED', 0)} survived, {tot.get('ERROR', 0)} errors.", ""]
+def passes(v):
+    return bool(v.get("baseline_tests")) and "331 passed" in v["baseline_tests"]
+
+
+allv = list(km.values())
+quiet = [v for v in allv if passes(v)]
+lines += ["", f"Totals: {tot.get('KILLED', 0)} killed, {tot.get('SURVIVED', 0)} survived, {tot.get('ERROR', 0)} errors "
+          f"over {len(allv)} (change, property) pairs. {len(quiet)} of the pairs are changes under which the repository's own "
+          f"331 tests still pass (all seeded ones by construction, and "
+          f"{sum(1 for v in quiet if v['kind'] == 'mutant')} of the {sum(1 for v in allv if v['kind'] == 'mutant')} hand-written "
+          f"mutants); of those {sum(1 for v in quiet if v['status'] == 'KILLED')} are killed. The survivors are explained below.", ""]
 notes_path = os.path.join(root, "seeded", "SURVIVORS.md")
 if os.path.exists(notes_path):
     lines += [open(notes_path).read().rstrip(), ""]
